@@ -85,6 +85,26 @@ Theorem forgotten_when_session_ends : forall self y i bi p id c,
 Proof. exact Proofs.Admit.forgotten_when_session_ends. Qed.
 Print Assumptions forgotten_when_session_ends.
 
+(* "session ended" is ONE event of the automaton whatever its cause (Recv io.EOF or error, Send
+   error, backend context cancelled, idle monitor): no reachable state lists a connection whose
+   session has ended, and the ending step itself removes the entry.  (That every cause really
+   raises this event in the implementation, within a fraction of a second, is what the harness's
+   session-endings phase checks.) *)
+Theorem no_connection_of_an_ended_session : forall self y,
+  reachable repaired self y ->
+  (forall id c, aget (y_conns y) id = Some c ->
+     exists i bi p, nth_error (y_sess y) i = Some (bi, p) /\ holds p = Some (id, c) /\ ended p = false) /\
+  (forall i bi p, nth_error (y_sess y) i = Some (bi, p) -> ended p = true -> holds p = None).
+Proof. exact Proofs.Admit.no_connection_of_an_ended_session. Qed.
+Print Assumptions no_connection_of_an_ended_session.
+
+Theorem ending_removes_in_one_step : forall self y i bi p id c,
+  reachable repaired self y -> nth_error (y_sess y) i = Some (bi, p) -> holds p = Some (id, c) ->
+  let y1 := sys_step repaired y (LHangup i) in
+  aget (y_conns y1) id = None /\ exists q, nth_error (y_sess y1) i = Some (bi, q) /\ ended q = true.
+Proof. exact Proofs.Admit.ending_removes_in_one_step. Qed.
+Print Assumptions ending_removes_in_one_step.
+
 (* the pinned code: a handshake without node ID is admitted as connection "" and can never be
    removed (DESIGN §9 row 5) ... *)
 Theorem pinned_empty_id_refuted :
